@@ -674,7 +674,12 @@ func (m *machine) violationNow(label, msg string) {
 		return
 	}
 	m.h.countObligation(label)
-	regions := m.eng.knownRegions(m.h.name, label)
+	var regions []*KnownFinding
+	for _, r := range m.eng.knownRegions(m.h.name, label) {
+		if r.Msg == "" || strings.Contains(msg, r.Msg) {
+			regions = append(regions, r)
+		}
+	}
 	if len(regions) > 0 {
 		var inAny *Term = falseT
 		for _, r := range regions {
